@@ -46,13 +46,15 @@ Render(x) == Tabs(x.lvl) \o x.nm
 
 (* ---- rule level ---------------------------------------------------------- *)
 \* result: [errs |-> set of <<kind, line>>, rules |-> Seq of [tg, src, cmd], adjacent |-> BOOLEAN]
+\* diagnoses of the sections of the current rule that are already closed (a file with two defects may be rejected for either)
+Closed(mode, t, s) == {<<e, 0>> : e \in (IF mode \in {"S", "K"} THEN Bundle(t).errs ELSE {}) \cup (IF mode = "K" THEN Bundle(s).errs ELSE {})}
 RECURSIVE Scan(_, _, _, _, _, _, _, _)
 Scan(L, i, mode, t, s, k, acc, prevClose) ==
   IF i > Len(L) THEN
      CASE mode = "P" -> acc
        [] mode = "T" -> [acc EXCEPT !.errs = @ \cup {<<"EofT", Len(L) + 1>>, <<"EofT", Len(L)>>}]
-       [] mode = "S" -> [acc EXCEPT !.errs = @ \cup {<<"EofS", Len(L) + 1>>, <<"EofS", Len(L)>>}]
-       [] OTHER      -> [acc EXCEPT !.errs = @ \cup {<<"EofK", Len(L) + 1>>, <<"EofK", Len(L)>>}]
+       [] mode = "S" -> [acc EXCEPT !.errs = @ \cup {<<"EofS", Len(L) + 1>>, <<"EofS", Len(L)>>} \cup Closed(mode, t, s)]
+       [] OTHER      -> [acc EXCEPT !.errs = @ \cup {<<"EofK", Len(L) + 1>>, <<"EofK", Len(L)>>} \cup Closed(mode, t, s)]
   ELSE LET x == L[i] IN
      CASE mode = "P" ->
             IF IsE(x) THEN Scan(L, i + 1, "P", t, s, k, acc, FALSE)
@@ -63,11 +65,11 @@ Scan(L, i, mode, t, s, k, acc, prevClose) ==
             ELSE IF IsC(x) THEN Scan(L, i + 1, "S", t, s, k, acc, FALSE)
             ELSE Scan(L, i + 1, "T", Append(t, x), s, k, acc, FALSE)
        [] mode = "S" ->
-            IF IsE(x) THEN [acc EXCEPT !.errs = @ \cup {<<"EmptyLine", i>>}]
+            IF IsE(x) THEN [acc EXCEPT !.errs = @ \cup {<<"EmptyLine", i>>} \cup Closed(mode, t, s)]
             ELSE IF IsC(x) THEN Scan(L, i + 1, "K", t, s, k, acc, FALSE)
             ELSE Scan(L, i + 1, "S", t, Append(s, x), k, acc, FALSE)
        [] OTHER ->
-            IF IsE(x) THEN [acc EXCEPT !.errs = @ \cup {<<"EmptyLine", i>>}]
+            IF IsE(x) THEN [acc EXCEPT !.errs = @ \cup {<<"EmptyLine", i>>} \cup Closed(mode, t, s)]
             ELSE IF IsC(x) THEN
                LET bt == Bundle(t) bs == Bundle(s)
                    berrs == {<<e, 0>> : e \in bt.errs \cup bs.errs} IN
